@@ -28,11 +28,23 @@ import vlib
 LEVEL = "exploration"
 
 
+def wide_acc():
+    """The mechanism model follows the recorded state of the code: KF_AccumulatorWrap fixed -> 64 bit accumulator."""
+    for k in vlib.load_known():
+        if k.get("property") == "C15" and "KF_AccumulatorWrap" in k.get("key", "") and k.get("status") == "fixed":
+            return True
+    return False
+
+
 def run(ctx):
     binary = vlib.go_build(ctx, "cksumdrv")
     cfg = "CksumVec_quick.cfg" if ctx.quick else "CksumVec_thorough.cfg"
     vec = os.path.join(ctx.scratch, "cksum.ndjson")
-    r, n = cl.tlc_vectors(ctx, "CksumVec", cfg, vec, timeout=600 if ctx.quick else 2400)
+    text = open(os.path.join(vlib.SPEC, cfg)).read()
+    if wide_acc():
+        text = text.replace("WideAcc = FALSE", "WideAcc = TRUE")
+    ctx.coverage["mechanism_wide_accumulator"] = wide_acc()
+    r, n = cl.tlc_vectors(ctx, "CksumVec", "vec.cfg", vec, timeout=900 if ctx.quick else 2400, heap="6g", files={"vec.cfg": text})
     if n == 0 or n != r.distinct:
         raise vlib.InfraError("TLC printed %d vectors for %d states" % (n, r.distinct))
     s = cl.drive(ctx, binary, ["-vectors", vec], timeout=900)
@@ -47,7 +59,7 @@ def run(ctx):
     seen = cl.report_failures(ctx, binary, s)
     evaluations = (s["lib_checks"] + s["sweep_len3"] + s["perturbations"] + s["random_strings"] + s["split_checks"] +
                    s["frames_verified"] + s["hdr_field_sweep"] + s["echo_payload_sweep"] + s["concurrent_headers"] +
-                   s["concurrent_frames"] + s["directed_sends"])
+                   s["concurrent_frames"] + s["directed_sends"] + s["long_inputs"] + s["long_split_checks"])
     cov = ctx.coverage
     cov.update({
         "tlc": {cfg: r.summary()},
@@ -74,6 +86,10 @@ def run(ctx):
         "directed_critical_totals_reached": s["directed_targets_reached"],
         "directed_by_icmp6_length": s["directed_by_icmp6_length"],
         "full_16bit_sweeps": s["full_16bit_sweeps"],
+        "long_tlc_vectors": s["long_tlc_vectors"],
+        "long_inputs_65534_and_more_bytes": s["long_inputs"],
+        "long_inputs_with_accumulator_overflow": s["long_inputs_with_accumulator_overflow"],
+        "long_split_checks": s["long_split_checks"],
         "headers_completed_concurrently": s["concurrent_headers"],
         "frames_sent_concurrently": s["concurrent_frames"],
         "emitted_frames_verified": s["frames_verified"],
@@ -93,7 +109,8 @@ def run(ctx):
     })
     ctx.assumptions += [
         "TLC evaluates spec/Cksum.tla faithfully; the Go transcription is trusted only after it reproduced every TLC vector",
-        "lengths above 1522 bytes (uint32 accumulator overflow beyond 128 KiB) are outside the quantifier",
+        "inputs longer than a datagram are covered by the long family (up to 200 001 bytes in TLC, up to 1 MiB in the driver); "
+        "the uint32 accumulator of the library as written is modelled in two 16-bit halves (Cksum.tla Acc32)",
         "frames are observed at the recording connection (vh.RecConn): what the session hands to net.PacketConn.WriteTo",
     ]
 
